@@ -11,7 +11,64 @@ COMMON_NOTE = ("Trusted: Lean 4.33 kernel (axioms propext, Classical.choice, Quo
                "the compiled driver cpdrv; CPython and the standard library. A harmless rewrite of the code can break the "
                "correspondence or a table obligation; that is then reported with no-failing-input-found.")
 
+CLS_NOTE = (COMMON_NOTE + " Inside the Lean model (exact correspondence on valid AND malformed inputs): TLS record, alert, CCS, "
+            "application data, ClientHello/ServerHello/HelloRetryRequest/Certificate/ServerKeyExchange/CertificateStatus/"
+            "ServerHelloDone and the handshake variant, 24 of the hello-extension classes and their vectors; other protocol "
+            "families as their model files are added (listed in the evidence). Classes outside the model are covered by the "
+            "implementation-side oracle only (property evaluated on the real code), which is search, not proof. Values that go "
+            "through idna/asn1crypto/dateutil/urllib3 are outside the model.")
+
 CHECKS = {
+    'C01': dict(
+        technique='Lean 4 proof of the round-trip law per codec combinator, instantiated per modelled class + differential correspondence + implementation-side round-trip oracle',
+        text=("RoundTrip (compose succeeds; parse of the composed bytes followed by ANY suffix returns the value and consumes "
+              "exactly the composed bytes) is proved for the primitive codecs and preserved by seq/mapE/guardE/minSize/framed; "
+              "instantiated for TlsProtocolVersion, TlsRecord, TlsAlertMessage, ChangeCipherSpec, ServerKeyExchange, "
+              "ServerHelloDone, CertificateStatus. For the hello messages the full statement is kept visible and tied to the "
+              "code by the correspondence only (partial). Every generated object of every modelled class is composed, parsed "
+              "by code and model and compared; the implementation oracle checks field-by-field equality."),
+        design='§6 C01', note=CLS_NOTE),
+    'C02': dict(
+        technique='Lean 4 proof of NoCrash per combinator/class (every non-documented Python exception is a crash branch of the model) + malformed-stream correspondence + crash monitor on the real code',
+        text=("NoCrash (no input reaches a branch modelling IndexError/ValueError/TypeError/KeyError/struct.error/"
+              "NotImplementedError/non-termination) is proved for the primitives, the coded-enum and IntEnum positions, "
+              "seq/framed and for TlsRecord, alert, CCS, version and every handshake class with a crash-free payload parser. "
+              "Truncated, bit-flipped, length-corrupted and spliced encodings of every modelled class run through code and "
+              "model; any exception outside the four documented ones on the real code is a violation by itself."),
+        design='§6 C02', note=CLS_NOTE),
+    'C03': dict(
+        technique='Lean 4 proof of LenBound/Positive/SelfDelim/declared-length per framing unit and of the entry-point wrappers + correspondence with trailing bytes',
+        text=("For every codec: parse_mutable removes exactly the first n bytes, a failed parse leaves the buffer untouched, "
+              "parse_exact_size succeeds iff n = len. LenBound/Positive/SelfDelim and n = declared length are proved for "
+              "TlsRecord and for EVERY TLS handshake message class (the framing decides them, whatever the payload parser). "
+              "parse_raw can no longer move the cursor backwards (negative size rejected). Encodings with trailing bytes, "
+              "concatenations and corrupted length fields are compared between code and model incl. the buffer after "
+              "parse_mutable; the oracle re-parses the first n bytes with other suffixes on the real code."),
+        design='§6 C03', note=CLS_NOTE),
+    'C04': dict(
+        technique='Lean 4 proof: PrefixReject per record layer + generic reader-loop reassembly theorem (induction over chunk lists) instantiated; exhaustive prefix correspondence; reader loop on the real code',
+        text=("PrefixReject (every proper prefix of a composed record is rejected with NotEnoughData(m), 1 <= m <= bytes "
+              "missing) is proved for TlsRecord and every TLS handshake message class; the generic theorems "
+              "reader_reassembles / reader_never_overasks / fragmentation independence (any codec with RoundTrip + "
+              "PrefixReject, any chunking) are instantiated for TlsRecord and an opaque handshake class. Every cut position of "
+              "generated records is run through code and model; a parse_mutable/bytes_needed reader loop is driven over "
+              "random chunkings incl. handshake messages fragmented over records."),
+        design='§6 C04', note=CLS_NOTE),
+    'C05': dict(
+        technique='Lean 4 proof: canonical form from ParseWf + RoundTrip per class + correspondence on accepted mutants + parse/compose/parse oracle on the real code',
+        text=("Canonical c (accepted input => compose succeeds, re-parses to the same value consuming everything, and "
+              "composes to the same bytes again) follows from ParseWf and RoundTrip; proved for the primitive codecs, "
+              "TlsProtocolVersion, TlsRecord, alert and CCS. Mutated-but-accepted encodings of all modelled classes are "
+              "recomposed by code and model and compared; the oracle checks parse->compose->parse->compose on the real code."),
+        design='§6 C05', note=CLS_NOTE),
+    'C06': dict(
+        technique='Lean 4 proof that the model composers equal an independent RFC-level spec encoder and that every vector prefix width equals the RFC ceiling width + independent Python RFC encoder vs the real code',
+        text=("Theorems: TlsRecord/alert/CCS compose = Spec encoders written from RFC 5246; every handshake class composes "
+              "msg_type + uint24 length + body; for 25 vector classes the live item_num_size (float math.log) equals the "
+              "width required by the RFC ceiling and the ceiling equals the RFC's; floors differing from the RFC are exactly "
+              "the listed ones. An independent Python encoder written from the RFCs (all handshake messages, 30+ extension "
+              "classes, SSL 2.0) is compared byte for byte with compose() of generated objects and its output parsed back."),
+        design='§6 C06', note=CLS_NOTE + " The Spec encoders are a reading of the RFCs (trusted)."),
     'C10': dict(
         technique='Lean 4 proof (generic linear-search decoding lemmas + kernel-decided obligations on regenerated enum tables) + exhaustive code-space correspondence',
         text=("Theorems for every table, width and code value at once: a strictly decoded code is the first member carrying "
